@@ -1,5 +1,5 @@
 """Claims published in MANIFEST.json (kept here so the manifest can be regenerated and always validates)."""
-SOURCE_COMMITS = ['4c1e51521 fix: BCSR row_norm2 square root after block loop', 'd83cc83e0 fix: dunavant:7 centroid weight', '246ad8691 fix: dunavant:18 coordinate typo']
+SOURCE_COMMITS = ['4c1e51521 fix: BCSR row_norm2 square root after block loop', 'd83cc83e0 fix: dunavant:7 centroid weight', '246ad8691 fix: dunavant:18 coordinate typo', 'fb60cf4da fix: empty CSR transpose shape', 'c4b87cbce fix: empty BCSR transpose shape']
 NOTES = ('Contract-based deductive verification with CBMC 6.11: the functions named per property are cut mechanically from /repo on every run, '
          'brought to C by a fixed rewrite table (xc/extract.py), annotated with the contracts in contracts/<id>/*.spec and checked by '
          'goto-instrument --dfcc + cbmc. exit 0 = every obligation discharged; exit 1 = VIOLATION (failed obligation; counterexample replayed '
@@ -9,6 +9,9 @@ CHECKS = {
  'C01': dict(level='proof', technique=T_PROOF,
    text='Unbounded proof (all shapes, sparsity patterns, scalars, r==y aliasing) that Apply::csr_generic (both transposed arms) computes a*A*x+b*y row by row in the ring Z/2^8 (ghost prefix sums), plus memory safety, frame (only r written) and termination in double; MemoryPool::set_memory/copy callee contracts proved and used modularly. Slice: CSR kernel + pool helpers only.',
    note='Assumes: ring-transfer argument A-ring (DESIGN §3.4) from Z/2^8 to the reals plus the standard backward-error bound; valid-CSR precondition; generic back end; extraction rewrite table and C shim trusted. NOT covered: BCSR/banded/dense/CSCR kernels, container wrappers (early-outs), meta matrices, MKL/CUDA.'),
+ 'C02': dict(level='model_checking', technique='CBMC contracts: loop-free method-level shape contracts (proved, callee contracts assumed/replaced) + bounded checking of the counting-sort/transposition loops with unwinding assertions; native replay through the real container classes',
+   text='Transposition slice: (proved, loop-free) SparseMatrixCSR/BCSR::transpose of an entry-free matrix and DenseMatrix::transpose(x) end with the transposed SHAPE and dispatch the kernel for exactly x\'s shape, for all shapes of target and source; (bounded) the CSR counting-sort region yields a valid sorted CSR matrix holding exactly the entries (j,i,v), and the dense transpose kernel (also in place) moves x[i][j] to r[j][i].',
+   note='Bounded parts: CSR arrays <= 4 elements (thorough 5), dense rows*columns <= 12 (in place 9); labelled bounded, never counted as proved. Assumed contracts: DenseMatrix constructor, Container::move, kernel dispatcher. NOT covered: convert between formats/data types, clone independence, permute of matrices, layout rebuild.'),
  'C03': dict(level='proof', technique=T_PROOF,
    text='Unbounded proofs for the arch kernels of matrix algebra (row/column scaling, lumping, diagonal, row norms, dense products) against the textbook formula per ghost entry.',
    note='Assumes A-ring, valid CSR. NOT covered: add_mat_mat_product/add_double_mat_product merges unless listed in evidence, shrink, exceptions.'),
@@ -40,7 +43,6 @@ NOT_APPLICABLE = {
 }
 
 PLANNED = {
- 'C02': 'CSR transpose region, dense transpose kernel, DenseMatrix::transpose shape logic (DESIGN §5 C02)',
  'C08': 'SOR/SSOR sweep regions (DESIGN §5 C08)',
  'C09': 'multigrid cycle control (DESIGN §5 C09)',
  'C10': 'orientation codes and per-cell refinement tables (DESIGN §5 C10)',
